@@ -109,7 +109,11 @@ Record file := mk_file {
   f_sym_base : Z; f_sym_entsize : Z; f_strtab_base : Z;
   f_syms : list (sym_raw * Z);
   f_dyn_base : Z; f_dyn_entsize : Z;
-  f_dyns : list (dyn_raw * Z)
+  f_dyns : list (dyn_raw * Z);
+  (* the entries of .debug_frame / .eh_frame in order: kind (0 CIE, 1 FDE, 2 ZERO terminator), index of the
+     entry's CIE in the same list (FDEs), the decoded table (rows and register order: opaque) *)
+  f_cfi_ents : list (Z * Z * Z);
+  f_ehcfi_ents : list (Z * Z * Z)
 }.
 
 Definition unit_at (F : file) (u : Z) : option udesc := find (fun ud => ud_off ud =? u) (f_units F).
@@ -180,10 +184,21 @@ Definition wf_lines (F : file) : bool :=
   znodup (map (fun kv => ld_start (snd kv)) (f_lines F)) &&
   forallb (fun kv => forallb (fun p => negb (Nat.eqb (fst p) S_LINE)) (lr_eff (ld_raw (snd kv)))) (f_lines F).
 
+Definition cfi_ents (F : file) (eh : bool) : list (Z * Z * Z) := if eh then f_ehcfi_ents F else f_cfi_ents F.
+Definition ent_kind (e : Z * Z * Z) : Z := fst (fst e).
+Definition ent_cie (e : Z * Z * Z) : Z := snd (fst e).
+Definition ent_table (e : Z * Z * Z) : Z := snd e.
+(* the CIE of an FDE is a CIE of the same list *)
+Definition wf_cfi (l : list (Z * Z * Z)) : bool :=
+  forallb (fun e => negb (ent_kind e =? 1) ||
+                    ((0 <=? ent_cie e) &&
+                     match nth_error l (Z.to_nat (ent_cie e)) with Some c => ent_kind c =? 0 | None => false end)) l.
+
 Definition wf_file (F : file) : bool :=
   units_chain 0 (f_units F) (f_info_size F) &&
   forallb (wf_unit F) (f_units F) &&
   wf_lines F &&
+  wf_cfi (f_cfi_ents F) && wf_cfi (f_ehcfi_ents F) &&
   wf_elf F.
 
 (* the finding C10/lineprogram-file_entry-grows lives exactly here *)
@@ -206,6 +221,18 @@ Definition parsers_of (F : file) : parsers :=
     (fun eh pos => if pos =? 0 then
                      match (if eh then f_ehcfi F else f_cfi F) with Some v => Ok v | None => Err EParse end
                    else Err EParse)
+    (fun eh => zlen (cfi_ents F eh))
+    (fun eh i => match nth_error (cfi_ents F eh) (Z.to_nat i) with Some e => (ent_kind e, ent_cie e) | None => (2, 0) end)
+    (fun eh i ct =>
+       match nth_error (cfi_ents F eh) (Z.to_nat i) with
+       | Some e =>
+           if ent_kind e =? 0 then Ok (ent_table e)
+           else match ct, nth_error (cfi_ents F eh) (Z.to_nat (ent_cie e)) with
+                | Some c, Some ce => if c =? ent_table ce then Ok (ent_table e) else Err EParse
+                | _, _ => Err EParse
+                end
+       | None => Err EParse
+       end)
     (f_stream_len F) (f_shoff F) (f_shnum F) (f_shentsize F) (f_shstr_base F)
     (table_at (f_shoff F) (f_shentsize F) (f_shdrs F))
     (fun pos => match zassoc pos (f_strs F) with Some v => Ok v | None => Err EParse end)
@@ -313,6 +340,8 @@ Definition query_spec (F : file) (o : op) : answer :=
       | None => AErr EParse
       end
   | CFI eh => match (if eh then f_ehcfi F else f_cfi F) with Some (v, _) => AVals [v] | None => AErr EParse end
+  | CFIDecoded eh i => match nth_error (cfi_ents F eh) (Z.to_nat i) with
+                       | Some e => AVals [ent_table e] | None => AErr (EPy "IndexError") end
   | NewIterCUs _ | NewIterDIEs _ _ | NewIterChildren _ _ _ | NewIterSiblings _ _ _
   | NewIterSections _ | NewIterSymbols _ | NewIterTags _ => ADone
   | Next _ => AStop     (* generators: see [spec_step] *)
@@ -548,6 +577,9 @@ Definition valid_op (F : file) (o : op) : bool :=
       | None => false
       end
   | CFI eh => match (if eh then f_ehcfi F else f_cfi F) with Some _ => true | None => false end
+  | CFIDecoded eh i =>
+      match (if eh then f_ehcfi F else f_cfi F) with Some _ => true | None => false end &&
+      (0 <=? i) && match nth_error (cfi_ents F eh) (Z.to_nat i) with Some e => ent_kind e <? 2 | None => false end
   | NewIterCUs _ | NewIterSections _ | Next _ => true
   | NewIterSymbols _ | ESymbolByName _ => has_symtab F
   | NewIterTags _ | ENumTags => has_dyn F
@@ -588,7 +620,7 @@ Definition op_ok (F : file) (o : op) : bool := valid_op F o && outside_finding F
 
 (* a concrete file used by the non-vacuity examples and the witness of the finding: one unit (header of 11
    bytes, entries at 11, 15, 18, 20 and the closing null entries at 22, 23), one abbreviation table, one
-   line program with two DW_LNE_define_file, .debug_frame, two sections, one segment, one symbol, two
+   line program with two DW_LNE_define_file, .debug_frame (a CIE and two FDEs), two sections, one segment, one symbol, two
    dynamic tags *)
 Definition ex_raw (size : Z) (null hc : bool) (stmt : option Z) (pid : Z) : die_raw :=
   mk_raw size null hc None [] stmt pid [].
@@ -605,7 +637,8 @@ Definition ex_file_gen (defs : Z) : file :=
           [(500, (1, 501)); (501, (2, 506)); (600, (3, 604))]
           50 20 [(mk_phdr 410 [], 70)]
           700 16 600 [(mk_sym 0 420, 716)]
-          800 16 [(mk_dyn false 430 [], 816); (mk_dyn true 431 [], 832)].
+          800 16 [(mk_dyn false 430 [], 816); (mk_dyn true 431 [], 832)]
+          [(0, 0, 500); (1, 0, 501); (1, 0, 502)] [].
 Definition ex_file : file := ex_file_gen 2.      (* the line program executes two DW_LNE_define_file *)
 Definition ex_file0 : file := ex_file_gen 0.     (* ... none *)
 
